@@ -1,6 +1,9 @@
 //! Implementation of the Universal Chess Interface (UCI) protocol
 
 use std::io::{BufRead, IsTerminal};
+// Under the simulator every `std::thread` / `std::io::stdout` named in this module is the simulated one.
+#[cfg(jgilchrist_tcheran_verif)]
+use crate::verif_seam::std_shim as std;
 #[cfg(not(jgilchrist_tcheran_verif))]
 use std::sync::{Arc, Mutex};
 #[cfg(jgilchrist_tcheran_verif)]
